@@ -37,7 +37,7 @@ CHECKS["C20"] = dict(
 # ---------------------------------------------------------------- C19
 _c19_q = [inst("root", "VHNumeric", {"FN": f}, solver="cvc5", timeout_ms=300000) for f in range(6)]
 _c19_q += [inst("root", "VHConversions", {"CASE": c}, solver="cvc5", workers=2) for c in (0, 1, 2, 3)]
-_c19_q += [inst("root", "VHConversions", {"CASE": 4}, solver="z3", workers=4)]
+_c19_q += [inst("root", "VHConversions", {"CASE": 4}, solver="z3", workers=4), inst("root", "VHConversions", {"CASE": 5}, solver="z3", workers=2, must_reach=["number-roundtrip-nonintegral"])]
 _c19_q += [inst("root", "VHRoundPlaces", {"N": n, "B": 10}, solver="cvc5", timeout_ms=900000) for n in (0, 1, 2)]
 _c19_t = _c19_q + [inst("root", "VHRoundPlaces", {"N": 3, "B": 10}, solver="cvc5", timeout_ms=3000000)]
 CHECKS["C19"] = dict(
@@ -49,7 +49,8 @@ CHECKS["C19"] = dict(
          "generation and the numeric value of non-integer literals are outside the claim (uninterpreted).",
     instances=dict(quick=_c19_q, thorough=_c19_t),
     assumptions=["|x| < 2^52, x not NaN (as in the property)", "round_places: |x| < 2^B, n = N as listed in bounds; slack of 2 ulp(x) for the double rounding",
-                 "number(string(x)) round trip decided for integral x in [-999, 9999] (symbolic digits); non-integral display forms are strconv's",
+                 "number(string(x)) round trip decided for integral x in [-999, 9999] (symbolic digits); for non-integral and large x it is checked on a "
+                 "finite set of 15 values covering the formats string() produces (enumeration: the digits are strconv's)",
                  "strings of at most 4 (number) / 5 (bool) arbitrary bytes"],
     trusted_base=["reflect semantics supplied by the engine from go/types", "strconv.ParseFloat value as an uninterpreted function except for integer literals",
                   "math.Floor/Ceil/Trunc/Round = fp.roundToIntegral RTN/RTP/RTZ/RNA"],
@@ -312,8 +313,10 @@ CHECKS["C17"] = dict(
         quick=[inst("internal/tree", "VHCommandArgs", {"ITEMS": 1, "N": 4}, workers=8, must_reach=["rearranged", "boolean", "number", "string"]),
                inst("internal/tree", "VHCommandArgs", {"ITEMS": 2, "N": 3}, workers=8, must_reach=["rearranged", "expression", "number", "string"]),
                inst("internal/tree", "VHCommandArgs", {"ITEMS": 3, "N": 2}, workers=8, must_reach=["rearranged", "expression", "string"]),
-               _world("VHNextStep", DEPTH=1, QLEN=2, BUDGET=1, VISCFG=1, HEAD=6, must_reach=["handler-args", "fail", "end-by-stop"])],
-        thorough=[inst("internal/tree", "VHCommandArgs", {"ITEMS": 1, "N": 5}, workers=16, must_reach=["rearranged", "boolean", "number", "string"]),
+               _world("VHNextStep", DEPTH=1, QLEN=2, BUDGET=1, VISCFG=1, HEAD=6, must_reach=["handler-args", "fail", "end-by-stop"]),
+               inst("root", "VHCommandTwice", solver="cvc5", workers=2, must_reach=["twice"])],
+        thorough=[inst("root", "VHCommandTwice", solver="cvc5", workers=2, must_reach=["twice"]),
+                  inst("internal/tree", "VHCommandArgs", {"ITEMS": 1, "N": 5}, workers=16, must_reach=["rearranged", "boolean", "number", "string"]),
                   inst("internal/tree", "VHCommandArgs", {"ITEMS": 2, "N": 4}, workers=16, must_reach=["rearranged", "expression", "number", "string"]),
                   inst("internal/tree", "VHCommandArgs", {"ITEMS": 3, "N": 3}, workers=16, must_reach=["rearranged", "expression", "string"]),
                   _world("VHNextStep", DEPTH=2, QLEN=2, BUDGET=1, VISCFG=1, HEAD=6, must_reach=["handler-args", "fail", "end-by-stop"])]),
